@@ -220,8 +220,15 @@ def run_property(prop, tier, jobs, kinds, text, bounds, outside=(), extra_assump
                 continue
             if r["name"].startswith("ExtendTransitions") or r["name"].startswith("calendar"):
                 # the model is over uninterpreted calendar / rule functions: confirm on a panel of concrete footers loaded natively
-                w = tz_replay.check_footer_panel() if r["name"].startswith("ExtendTransitions") else None
-                if w: rep.violation("footer-panel:" + w[:120], w + "  [%s: %s]" % (r["name"], fobj["desc"]), {"footer_panel": True})
+                w = None; key = None; case = {"footer_panel": True}
+                if r["name"].startswith("ExtendTransitions"):
+                    if fobj["desc"].startswith("seam:"):
+                        # replay with the last recorded transition in the model's year (clamped to what the calendar walk of the panel handles quickly)
+                        by = max(-100000, min(1568, next((v for k_, v in fobj["model"].items() if k_.startswith("LY0")), 1000)))
+                        w = tz_replay.check_footer_panel(by); key = "seam:generated-years-end-before-1970"; case = {"footer_panel": True, "base_year": by}
+                    else:
+                        w = tz_replay.check_footer_panel()
+                if w: rep.violation(key or ("footer-panel:" + w[:120]), w + "  [%s: %s]" % (r["name"], fobj["desc"]), case)
                 else: rep.spurious.append({"job": r["name"], "obligation": fobj["desc"], "model": fobj["model"]})
                 continue
             z = model_to_zone(fobj["model"], kw["N"], kw["T"])
@@ -263,7 +270,7 @@ def run_property(prop, tier, jobs, kinds, text, bounds, outside=(), extra_assump
 
 def replay_case(case):
     if "transoffset" in case: return tz_replay.check_transoffset(case["transoffset"], case["form"])
-    if case.get("footer_panel"): return tz_replay.check_footer_panel()
+    if case.get("footer_panel"): return tz_replay.check_footer_panel(case.get("base_year", 1990))
     return tz_replay.check_case(case["zone"], case.get("kind") or "break") or \
            next((w for w in (tz_replay.check_case(case["zone"], k) for k in ("make", "roundtrip", "order", "next", "prev")) if w), None) or \
            tz_replay.check_ub(case["zone"])
